@@ -128,6 +128,7 @@ type c06Scenario struct {
 	h2Select bool
 	grown    bool // the file grows (a committed bulk insert by another process) after the handle was opened, before the call
 	repeat   bool // the same handle makes the call a second time after the first returned (whatever its outcome)
+	nestAt   int  // the callback of this row makes select-like calls on the same handle itself (refused today: "trying to lock a locked lock")
 }
 
 func (s *c06Scenario) String() string {
@@ -149,6 +150,9 @@ func (s *c06Scenario) String() string {
 	}
 	if s.repeat {
 		x += ", called twice"
+	}
+	if s.nestAt > 0 {
+		x += fmt.Sprintf(", nested calls from the callback of row %d", s.nestAt)
 	}
 	return x
 }
@@ -332,7 +336,14 @@ func c06Run(r *ev.Run, c *mc.Ctx, wk *c06Worker, sc *c06Scenario, img []byte) c0
 						pv = p
 					}
 				}()
+				rowNo := 0
 				err = sc.op.run(env, func() bool {
+					rowNo++
+					if sc.nestAt > 0 && rowNo == sc.nestAt {
+						// re-entrant use of the handle: whatever these return, the outer call's lock must survive them
+						Safely(func() { env.H.Columns("t") })
+						Safely(func() { env.H.SelectRowid("t", 1, "v") })
+					}
 					h1.yield <- c06Event{kind: "row"}
 					switch <-h1.resume {
 					case "stop":
@@ -376,6 +387,9 @@ func c06Run(r *ev.Run, c *mc.Ctx, wk *c06Worker, sc *c06Scenario, img []byte) c0
 			}
 		case "row":
 			h1.rowsSeen++
+			if !h1.locked && sc.op.name != "SelectRowid" { // SelectRowid has no callback: the harness reports its row after the call returned
+				violation("C06:callback-outside-lock:"+opKind(sc.op.name), fmt.Sprintf("the callback of row %d runs while the read lock is not held", h1.rowsSeen))
+			}
 		}
 	}
 	resumeH1 := func() {
@@ -544,7 +558,7 @@ func c06Run(r *ev.Run, c *mc.Ctx, wk *c06Worker, sc *c06Scenario, img []byte) c0
 }
 
 func runC06(r *ev.Run) {
-	r.Rule = "operation under test H1 in {Select, SelectDone, SelectRowid, IndexedSelect, IndexedSelectEq, PKSelect, Columns, on rowid and WITHOUT ROWID tables with overflow rows} x exit paths {normal, stop at row k for every k, callback panics at row k, no such table/column/index, fault at page read k for every k} run on the real file pager under a tracing pager (scheduling points: before/after every lock, unlock, page read, reserved-lock probe, and every row callback); other participants in atomic steps: W = real SQLite writer in another process (BEGIN IMMEDIATE, INSERT, COMMIT with busy_timeout 0), H2 = second sqlittle handle in the same process (Open, RLock, RUnlock, Close / a whole Select), H3 = sqlittle handle in another process; every interleaving with preemption bound 2 (pairs: unbounded in thorough); invariants at every point from /proc/locks: inside the call the process holds READ on the whole shared range, every page read lies inside the locked interval, a COMMIT attempted inside is BUSY, after return nothing is held on the pending byte and shared range and the writer can commit; the same handle calling twice (after a refused, an overlapped and a plain first call); plus database/sql result sets left open after k rows. non-trivial = executions with at least one preemption or a non-normal exit path"
+	r.Rule = "operation under test H1 in {Select, SelectDone, SelectRowid, IndexedSelect, IndexedSelectEq, PKSelect, Columns, on rowid and WITHOUT ROWID tables with overflow rows} x exit paths {normal, stop at row k for every k, callback panics at row k, no such table/column/index, fault at page read k for every k} run on the real file pager under a tracing pager (scheduling points: before/after every lock, unlock, page read, reserved-lock probe, and every row callback); other participants in atomic steps: W = real SQLite writer in another process (BEGIN IMMEDIATE, INSERT, COMMIT with busy_timeout 0), H2 = second sqlittle handle in the same process (Open, RLock, RUnlock, Close / a whole Select), H3 = sqlittle handle in another process; every interleaving with preemption bound 2 (pairs: unbounded in thorough); invariants at every point from /proc/locks: inside the call the process holds READ on the whole shared range, every page read lies inside the locked interval, a COMMIT attempted inside is BUSY, after return nothing is held on the pending byte and shared range and the writer can commit; select-like calls made from inside a row callback on the same handle (alone and against the writer); the same handle calling twice (after a refused, an overlapped and a plain first call); plus database/sql result sets left open after k rows. non-trivial = executions with at least one preemption or a non-normal exit path"
 	img := c06Image()
 	ops := c06Ops()
 	// exit-path scenarios, alone (sequential monitor)
@@ -632,6 +646,9 @@ func runC06(r *ev.Run) {
 		if op.name == "SelectDone" || op.name == "Columns" || op.name == "IndexedSelectEq" || op.name == "PKSelect" {
 			// the same handle calls again after a call that was refused (writer in EXCLUSIVE), that overlapped a writer, or that simply returned
 			scen = append(scen, c06Scenario{op: op, others: "WX", repeat: true}, c06Scenario{op: op, others: "W", repeat: true}, c06Scenario{op: op, repeat: true})
+		}
+		if op.rows >= 2 && (op.name == "Select" || op.name == "SelectDone(w)" || op.name == "IndexedSelect" || op.name == "IndexedSelectEq") {
+			scen = append(scen, c06Scenario{op: op, nestAt: 1}, c06Scenario{op: op, nestAt: 1, others: "W"})
 		}
 		if op.name == tripleOp {
 			scen = append(scen, c06Scenario{op: op, others: "H2+W"}, c06Scenario{op: op, others: "H3+W"})
